@@ -1,5 +1,5 @@
 SPECIFICATION Spec
-CONSTANT Deep = FALSE
+CONSTANT Deep = TRUE
 INVARIANT EmitInv
 INVARIANT OrderIrrelevant
 CHECK_DEADLOCK FALSE
